@@ -69,11 +69,16 @@ func (c *Ctx) Ob(key, rule, desc string, min int, body func()) {
 				o.Broken = append(o.Broken, "anchor moved: "+ae.msg)
 				return
 			}
+			if ms, ok := r.(missingStep); ok {
+				o.N++
+				o.Viol = append(o.Viol, Violation{ID: o.Key + "@missing-step", Key: o.Key, Rule: o.Rule, Func: "-", Where: "-", Why: "required construct missing or duplicated: " + ms.msg})
+				return
+			}
 			o.Broken = append(o.Broken, fmt.Sprintf("analyser panic: %v\n%s", r, debug.Stack()))
 		}
 	}()
 	body()
-	if o.N < o.Min {
+	if o.N < o.Min && len(o.Viol) == 0 {
 		o.Broken = append(o.Broken, fmt.Sprintf("matched %d instances, fewer than the %d confirmed by hand (rule would pass vacuously)", o.N, o.Min))
 	}
 }
